@@ -157,6 +157,9 @@ func (f *Font) MakeGlyphNames() []string {
 									continue replLoop
 								}
 							}
+							if glyphNames[lig.Out] != "" {
+								continue
+							}
 							newName := strings.Join(nn, "_")
 							glyphNames[lig.Out] = makeVariant(used, newName)
 						}
